@@ -107,7 +107,20 @@ struct TapLeaf : public TapNode {
     }
 };
 
+static int tap_main(int argc, char* const* argv);
+
 int main(int argc, char* const* argv)
+{
+    try {
+        return tap_main(argc, argv);
+    } catch (const std::exception& ex) {
+        // e.g. a script or spending argument such as int(0x0102030405) (script number overflow)
+        fprintf(stderr, "error: %s\n", ex.what());
+        return 1;
+    }
+}
+
+static int tap_main(int argc, char* const* argv)
 {
     ECC_Start();
 
@@ -505,6 +518,7 @@ int main(int argc, char* const* argv)
     }
 
     ECC_Stop();
+    return 0;
 }
 
 static void GetRandBytes(unsigned char* buf, int num)
